@@ -222,7 +222,9 @@ def _matched_description(txn, raw_desc, transforms):
     probe = {
         'description': raw_desc,
         'amount': txn.get('amount') or 0,
-        'field': dict(txn['field']) if txn.get('field') else txn.get('field'),
+        # the custom columns as read from the file: txn['field'] already went through the
+        # transforms once, applying them again would not reproduce what the rules saw
+        'field': dict(txn.get('_raw_field') or txn.get('field') or {}) or txn.get('field'),
         'source': txn.get('source'),
         'location': txn.get('location'),
     }
